@@ -814,8 +814,8 @@ def raw_sequence_stores(ctx: Ctx, files: set[str] | None):
             if "__hash__" not in c.methods and "__eq__" not in c.methods:
                 continue
             for g in c.methods.values():
-                if isinstance(g.node, ast.Lambda) or not (g.name in ("__init__", "_ctor") or g.name.endswith("__ctor")):
-                    continue
+                if isinstance(g.node, ast.Lambda) or g.name != "__init__":
+                    continue  # private constructors (_ctor / __ctor) are handed sequences the caller has just built and owns
                 ann = {a.arg: (unparse(a.annotation) if a.annotation is not None else "") for a in g.node.args.args + g.node.args.kwonlyargs}
                 for n in own_nodes(g.node):
                     if isinstance(n, (ast.Assign, ast.AnnAssign)) and n.value is not None:
@@ -835,7 +835,7 @@ def _make_rawseq(prop: str):
         rr = RuleResult(f"R{prop[1:]}.rawseq", "constructors of value classes (with __eq__ / __hash__) never store a Sequence / Iterable / Mapping argument as it is: they copy it into an immutable container", min_instances=0)
         if "rawseq_total" not in ctx.cache:
             ctx.cache["rawseq_total"] = sum(1 for _ in raw_sequence_stores(ctx, None))
-        if ctx.cache["rawseq_total"] < 40:
+        if ctx.cache["rawseq_total"] < 20:
             from ..model import AnalysisError
 
             raise AnalysisError(f"constructor-store enumerator finds only {ctx.cache['rawseq_total']} parameter stores in value classes")
@@ -865,7 +865,7 @@ SHARED = {
     "C02": [("c13", "r13_1_year_cache_keys"), ("c01", "r01_5_per_year_consistency"), ("c01", "r01_13_days_since_epoch_uses_hooks"), ("c01", "r01_14_gregorian_fast_tables")],
     "C03": [("c11", "r11_4_sign_discipline"), ("c15", "r15_12_timedelta_fields"), ("c15", "r15_13_no_coarser_type_on_the_way")],
     "C04": [("c02", "r02_5_leap_decisions")],
-    "C06": [("c04", "r04_8_queries_are_used"), ("c02", "r02_5_leap_decisions"), ("c13", "r13_2_zone_interval_cache"), ("c01", "r01_5_per_year_consistency")],
+    "C06": [("c04", "r04_8_queries_are_used"), ("c02", "r02_5_leap_decisions"), ("c13", "r13_2_zone_interval_cache"), ("c01", "r01_5_per_year_consistency"), ("c17", "r17_11_offset_bucket_range")],
     "C18": [("c12", "r12_2_3_eq_hash_fields"), ("c09", "r09_12_months_between_is_checked_by_addition"), ("c13", "r13_12_packed_cache_words_are_unpacked"), ("c01", "r01_5_per_year_consistency"), ("c01", "r01_13_days_since_epoch_uses_hooks"), ("c01", "r01_3b_badi_table_readers"), ("c01", "r01_9_badi_year_lengths"), ("c10", "r10_15_single_boundary_fast_path")],
     "C17": [("c13", "r13_13_bucket_providers_build_fresh_buckets"), ("c07", "r07_2_table_agreement")],
     "C12": [("c09", "r09_12_months_between_is_checked_by_addition"), ("c13", "r13_4_publication")],
